@@ -253,6 +253,9 @@ def unit(p, item, tier, seed):
         c = circgen.random_circuit(rnd, rnd.randint(1, 4), rnd.randint(1, 8), max_arity=3, n_outputs=rnd.randint(1, 3), shuffle_storage=bool(i % 2))
         circgen.add_random_blocks(c, rnd, 2)
         fam.append((f"seeded[{s}:{i}]", c))
+    if s % 16 == 0:
+        for name, c0, call in mutators.loop_closing_cases():
+            check_replace_subcircuit(p, name, c0, call, "loop-closing")
     for name, c0 in fam:
         labs = list(c0.gates)
         for lab in (labs if len(labs) <= 40 else rnd.sample(labs, 12)):
